@@ -1,8 +1,66 @@
-(* C02 - barrier alignment gives every operator checkpoint a consistent cut. Statements only. *)
-From RV Require Import Model.Align.
+(* C02 - barrier alignment gives every operator checkpoint a consistent cut. Statements only.
+
+   Reading.  [exec c (init c) acts = Some x]: acts is a schedule all of whose actions were enabled,
+   starting from a freshly deployed operator with [n_senders c] source runners, any batch size and
+   time-out setting.  Enabledness of [Gate s it] requires sender s to be idle: one outstanding
+   HandleEvent per sender (the hypothesis of the property).  [script acts s] is what sender s
+   delivered, in order.  The log of x is newest-first; an entry's origin (s, j) says it stems from the
+   j-th delivery of sender s: [LAct] = the event loop acted on it (event put into the batch, watermark
+   registered and timers fired, barrier registered), [LApp] = its result (the event, or a timer fired
+   by that watermark) was applied to state by a handler call, [LCkpt cid snap] = the DKV checkpoint of
+   id cid was taken with content snap and reported. *)
+From RV Require Import Model.Align Proofs.C02_Align.
 From Coq Require Import List NArith Bool Arith.
 Import ListNotations.
 Open Scope N_scope.
+
+(* For every number of senders, every schedule and every checkpoint record in the run (so: any number
+   of consecutive checkpoints): every sender s delivered a barrier with exactly that id, at some
+   position b s of its sequence, it was accepted before the record, and
+   - everything logged before the record stems from deliveries at or before b s,
+   - everything logged after the record stems from deliveries after b s (nothing a sender delivered
+     after its barrier - event, watermark, timer fired by such a watermark - is acted on or applied
+     before the checkpoint is taken),
+   - every keyed event delivered before b s has been applied before the record and is in the
+     checkpoint; every watermark delivered before b s has been acted on,
+   - the checkpoint content is exactly what was applied before the record. *)
+Theorem consistent_cut : forall c acts x post cid snap pre,
+  exec c (init c) acts = Some x ->
+  log (dt x) = post ++ LCkpt cid snap :: pre ->
+  (forall bi, In bi (fst snap) <-> In (LApp bi) pre) /\
+  exists b : nat -> nat, forall s, (s < n_senders c)%nat ->
+    nth_error (script acts s) (b s) = Some (IBar cid)
+    /\ In (LAct (s, b s) (IBar cid) true) pre
+    /\ (forall e j, In e pre -> entry_origin e = Some (s, j) -> (j <= b s)%nat)
+    /\ (forall e j, In e post -> entry_origin e = Some (s, j) -> (b s < j)%nat)
+    /\ (forall j id key tm, (j < b s)%nat -> nth_error (script acts s) j = Some (IEv id key tm) ->
+          In (LApp (BEv (s, j) id key tm)) pre /\ In (BEv (s, j) id key tm) (fst snap))
+    /\ (forall j t, (j < b s)%nat -> nth_error (script acts s) j = Some (IWm t) -> In (LAct (s, j) (IWm t) true) pre).
+Proof. exact consistent_cut_proof. Qed.
+Print Assumptions consistent_cut.
+
+(* origins are truthful: an applied event is the j-th delivery of s, an applied timer was fired by a
+   watermark that is the j-th delivery of s, anything acted on was delivered *)
+Theorem applied_are_delivered : forall c acts x s j,
+  exec c (init c) acts = Some x ->
+  (forall id key tm, In (LApp (BEv (s, j) id key tm)) (log (dt x)) -> nth_error (script acts s) j = Some (IEv id key tm)) /\
+  (forall k ts, In (LApp (BTm (s, j) k ts)) (log (dt x)) -> exists t, nth_error (script acts s) j = Some (IWm t)) /\
+  (forall it ok, In (LAct (s, j) it ok) (log (dt x)) -> exists it', nth_error (script acts s) j = Some it').
+Proof. exact applied_are_delivered_proof. Qed.
+Print Assumptions applied_are_delivered.
+
+(* the mechanism: in every reachable state a sender whose barrier of the checkpoint in progress is
+   registered is never past the gate (it is idle or parked on that checkpoint) *)
+Theorem registered_sender_blocked : forall c acts x cur m s it,
+  exec c (init c) acts = Some x -> ckpt x = Some (cur, m) -> ~ In s m ->
+  nth_error (modes x) s <> Some (Passed it) /\
+  (forall g it', nth_error (modes x) s = Some (Parked g it') -> g = done x).
+Proof.
+  intros c acts x cur m s it H Ec Hn. destruct (exec_init _ _ _ H) as (I & _). split.
+  - intros Hm. eapply passed_not_reg; eauto.
+  - intros g it' Hm. apply (i_parked _ _ I _ _ _ Hm). exists cur, m. auto.
+Qed.
+Print Assumptions registered_sender_blocked.
 
 (* a barrier whose id differs from the checkpoint in progress is rejected and changes nothing *)
 Theorem barrier_id_checked : forall c x s cid cur m x',
@@ -18,3 +76,20 @@ Proof.
   cbn. repeat split; reflexivity.
 Qed.
 Print Assumptions barrier_id_checked.
+
+(* ---------- non-vacuity: enabled schedules with parked senders, a pending batch at the last barrier,
+   two consecutive checkpoints, a rejected barrier, a time-out flush ---------- *)
+Definition ex_cfg := mkCfg 2 3 true.
+Definition ex_acts : list action :=
+  [Gate 0 (IEv 1 1 5); Handle 0; Gate 1 (IEv 2 2 0); Handle 1; Gate 0 (IBar 7); Gate 1 (IEv 3 1 0); Handle 0;
+   Gate 0 (IEv 4 1 0); Handle 1; Gate 1 (IBar 8); Handle 1; Gate 1 (IBar 7); Handle 1; Wake 0; Handle 0;
+   Gate 0 (IWm 9); Gate 1 (IWm 6); Handle 0; Handle 1; TimerFire; Timeout;
+   Gate 1 (IBar 9); Handle 1; Gate 1 (IEv 5 1 0); Gate 0 (IBar 9); Handle 0; Wake 1; Handle 1].
+Example ex_runs :
+  option_map (fun x => (length (filter (fun e => match e with LCkpt _ _ => true | _ => false end) (log (dt x))),
+                        existsb (fun e => match e with LAct _ (IBar 8) false => true | _ => false end) (log (dt x))))
+             (exec ex_cfg (init ex_cfg) ex_acts) = Some (2%nat, true).
+Proof. vm_compute. reflexivity. Qed.
+Example ex_parks : option_map (fun x => nth_error (modes x) 0) (exec ex_cfg (init ex_cfg) (firstn 8 ex_acts))
+                   = Some (Some (Parked 0 (IEv 4 1 0))).
+Proof. vm_compute. reflexivity. Qed.
